@@ -7,6 +7,7 @@ import (
 
 	"github.com/megaease/easegress/pkg/context"
 	"github.com/megaease/easegress/pkg/supervisor"
+	"github.com/megaease/easegress/pkg/tracing"
 )
 
 // C11 (mux generations), package httpserver: one request concurrently with one
@@ -147,4 +148,60 @@ func verifC11_RuntimeReload() {
 	std := &http.Request{Method: "GET", Host: "h", URL: &url.URL{Path: "/x"}, Header: http.Header{}, Body: &vReqBody{}, RemoteAddr: "9.9.9.9:1"}
 	m.ServeHTTP(w, std)
 	verifAssert(mapper.nw.calls == 1 && mapper.old.calls == 0, "rules-are-the-new-generations")
+}
+
+// ---- the tracer of a generation ------------------------------------------------------------
+
+var (
+	vTracersMade  int
+	vTracerCloses int
+	vClosedTracer *tracing.Tracer
+)
+
+func vTracingNew(spec *tracing.Spec) (*tracing.Tracer, error) {
+	if spec == nil {
+		return tracing.NoopTracer, nil
+	}
+	vTracersMade++
+	return &tracing.Tracer{}, nil
+}
+
+func vTracerClose(t *tracing.Tracer) error {
+	vTracerCloses++
+	vClosedTracer = t
+	return nil
+}
+
+// verifC11_MuxTracing: an update that leaves the tracing configuration as it is (the new spec
+// is parsed afresh: equal content, another pointer) keeps the tracer - requests of the old
+// generation that are still in flight finish their spans on a live tracer; only a change of
+// the tracing configuration creates a new tracer.
+func verifC11_MuxTracing() {
+	mapper := &vGenMapper{old: &vBackend{status: 200}, nw: &vBackend{status: 201}}
+	m := &mux{}
+	m.inst.Store(&muxInstance{spec: &Spec{}, tracer: tracing.NoopTracer})
+	mk := func(service string, backend string) *Spec {
+		return &Spec{Tracing: &tracing.Spec{ServiceName: service, Zipkin: &tracing.ZipkinSpec{ServerURL: "http://z", SampleRate: 1}},
+			Rules: []*Rule{{Paths: []*Path{{PathPrefix: "/", Backend: backend}}}}}
+	}
+	vTracersMade, vTracerCloses, vClosedTracer = 0, 0, nil
+	m.reload(vSuper(mk("svc", "old")), mapper)
+	verifAssert(vTracersMade == 1, "tracer-created-for-the-first-generation")
+	gen1 := m.inst.Load().(*muxInstance)
+	closesBefore := vTracerCloses
+	changed := verifBool("tracingConfigurationChanged")
+	service := "svc"
+	if changed {
+		service = "svc2"
+	}
+	m.reload(vSuper(mk(service, "new")), mapper)
+	gen2 := m.inst.Load().(*muxInstance)
+	if !changed {
+		verifAssert(vTracersMade == 1 && gen2.tracer == gen1.tracer, "unchanged-tracing-keeps-the-tracer")
+		verifAssert(vTracerCloses == closesBefore, "tracer-of-in-flight-requests-is-not-closed-by-a-rule-update")
+		verifCover("tracer-kept")
+	} else {
+		verifAssert(vTracersMade == 2 && gen2.tracer != gen1.tracer, "changed-tracing-creates-a-new-tracer")
+		verifCover("tracer-replaced")
+	}
 }
